@@ -154,15 +154,10 @@ func c18(e *Env) {
 	ob3a := r.Ob("R3", "TempDir:sub-stream-paths", "the members' paths are part of the task's temp-dir identity")
 	if td := p.Func("Task.TempDir"); td != nil {
 		okT := false
-		for _, b := range td.Blocks {
-			for _, in := range b.Instrs {
-				if c, ok := in.(*ssa.Call); ok {
-					if bi, ok := c.Call.Value.(*ssa.Builtin); ok && bi.Name() == "append" {
-						s := sy.InFunc(td, c.Call.Args[1]).String()
-						if strings.Contains(s, fnPath+"($t.subStreamIPs[") {
-							okT = true
-						}
-					}
+		if id := e.tempDirIdentity(td); id != nil {
+			for _, pc := range id.pieces {
+				if ps := pc.String(); strings.Contains(ps, fnPath+"(") && strings.Contains(ps, "$t.subStreamIPs[") {
+					okT = true
 				}
 			}
 		}
